@@ -95,7 +95,13 @@ def pipeflow(net, sol_vec=None, **kwargs):
         if calculate_heat:
             heat_transfer(net)
 
-    extract_all_results(net, calculation_mode)
+    try:
+        extract_all_results(net, calculation_mode)
+    except Exception:
+        # a calculation whose results cannot be extracted has failed: no half-written result tables
+        net.converged = False
+        init_all_result_tables(net)
+        raise
 
 
 def use_given_hydraulic_results(net, sol_vec):
